@@ -1,15 +1,16 @@
 SPECIFICATION Spec
 CONSTANTS
-  Policy = "mtsafe"
+  Policies = {"mtsafe"}
   Threads = {t1, t2}
   MaxCreate = 4
-  MaxLive = 3
+  MaxOverlap = 3
   Classes = {1, 2}
-  Trailer = 8
-  InitSize = 0
-  NSlots = 5
+  StackInits = {0, 200}
+  BufferInits = {0, 200}
+  PlaceInits = {300}
+  NSlots = 6
   Grain = "alloc"
   Fixed = FALSE
-INVARIANTS TypeOK Exclusive LargeEnough HeapFallbackFreedOnce TrailerTruthful MtSafeNeverShares ReuseBlock ExtraCtorDtorOnce
+INVARIANTS TypeOK Exclusive BlockAlive BookkeepingTruthful LargeEnough HeapFallbackFreedOnce TrailerTruthful MtSafeNeverShares ReuseBlock ExtraCtorDtorOnce
 PROPERTIES ExtraUsableAtCreation WarmNoAlloc CompleteNoAlloc
 CHECK_DEADLOCK FALSE
